@@ -114,6 +114,12 @@ pub fn main(args: &[String]) -> i32 {
             }
             0
         }
+        Some("v4status") => {
+            // build a small V4 archive at args[1] and print its digest status
+            let b = ArchiveBuilder::new().version(FormatVersion::V4).listfile_option(ListfileOption::Generate).add_file_data(b"hello world hello world".to_vec(), "a.txt");
+            if let Err(e) = b.build(&args[1]) { println!("ERR build {e}"); return 1; }
+            match Archive::open(&args[1]).and_then(|mut a| a.get_info()) { Ok(i) => { println!("{:?}", i.md5_status); 0 } Err(e) => { println!("ERR {e}"); 1 } }
+        }
         Some("header") => {
             match Archive::open(&args[1]) { Ok(a) => { let h = a.header();
                 println!("hdr={} size={} ver={} shift={} hash={}/{} block={}/{}", h.header_size, h.archive_size, h.format_version as u16, h.block_size, h.get_hash_table_pos(), h.hash_table_size, h.get_block_table_pos(), h.block_table_size); 0 }
